@@ -33,6 +33,7 @@ RULE = (
     "subsets of hidden nodes of fixed small tries x a fixed op list. Non-trivial = >=1 "
     "report and a non-blank final result, or a mutation that failed on a node at depth "
     ">=2. Distinct = canonical JSON."
+    " Added after the seeded rounds: set (and delete of an absent key) may only report nodes on the key's path; up to four consecutive operations, a failed one may be abandoned after its node was supplied; set/delete also through a fresh squash_changes block; read-change-read scenarios; the database may call back on a miss and re-point the trie for the duration of the failing call; deleting an absent (hidden) node raises KeyError like a real store."
 )
 LEVEL_TEXT = (
     "Fault enumeration over missing-node subsets: generated subsets plus all 2^n subsets "
